@@ -518,6 +518,23 @@ fn gen_writes(rec: &mut Rec, rng: &mut Rng, cases: u64, keep_going: bool) {
     for ci in 0..cases {
         rec.case(if keep_going { "c03" } else { "c02" });
         rec.op("init c0");
+        if ci % 3 == 1 {
+            // an earlier invocation on the same thread, abandoned mid-way (nested, rejected calls
+            // in between): nothing of it may show in the document written next
+            for _ in 0..rng.range(1, 4) {
+                let l = match rng.below(6) {
+                    0 => format!("w obj {}", rng.range(1, 3)),
+                    1 => "w str 6b".to_string(),
+                    2 => "w endarr".to_string(),
+                    3 => format!("w i32 {}", rng.pick(I32S)),
+                    _ => format!("w arr {}", rng.range(1, 3)),
+                };
+                rec.op(&l);
+            }
+            rec.bump("with-abandoned-earlier-invocation");
+            rec.op("out?");
+            rec.op("init c0");
+        }
         let mut interned: Vec<usize> = Vec::new();
         if rng.chance(1, 3) {
             for _ in 0..rng.range(1, 3) {
@@ -976,6 +993,10 @@ fn gen_typed(rec: &mut Rec, rng: &mut Rng, cases: u64) {
         &[0x93, 0x07, 0xa1, b'q', 0x91, 0xcb, 0x40, 0x09, 0x21, 0xfb, 0x54, 0x44, 0x2d, 0x18],
         &[0xa2, 0xc3, 0xa9], &[0x91, 0x81, 0xa1, b'k', 0x91, 0x05], &[0x81, 0xa1, b'k', 0x81, 0xa1, b'j', 0x01],
         &[0x92, 0x91, 0x01, 0x91, 0x02],
+        // non-zero doubles far below 1 (not integers), a subnormal, minus zero, infinities
+        &[0xcb, 0x3c, 0x80, 0, 0, 0, 0, 0, 0], &[0xcb, 0, 0, 0, 0, 0, 0, 0, 1], &[0xcb, 0x80, 0, 0, 0, 0, 0, 0, 0],
+        &[0xcb, 0x7f, 0xf0, 0, 0, 0, 0, 0, 0], &[0xca, 0x00, 0x00, 0x00, 0x01], &[0x91, 0xcb, 0x3c, 0x80, 0, 0, 0, 0, 0, 0],
+        &[0xcb, 0xbc, 0x80, 0, 0, 0, 0, 0, 0], &[0xcb, 0x43, 0xe0, 0, 0, 0, 0, 0, 0],
     ];
     for d in doc_srcs {
         docs.push(hex(d));
